@@ -239,6 +239,15 @@ func c04Extra(thorough bool) []*Scenario {
 			Requests: []SetReqOrCall{a("leafA", "1"), a("leafA2", "bad"), setReq("T1.sub/leafC=c", upd("T1", "/cont/sub/leafC", "c"))}, Faults: []FaultSpec{faultConnUp("T1")}, FaultBudget: 1},
 		{Name: "S5i Set on T1 connected; the device restarts empty twice; one step held at a store write while another controller runs", Cfg: one, Init: connectAll("T1"),
 			Requests: []SetReqOrCall{a("leafA", "1")}, Faults: []FaultSpec{faultDeviceRestart("T1"), faultConnDown("T1"), faultConnUp("T1")}, FaultBudget: 3, InterleaveBudget: 1},
+		// split steps: one reconcile call is parked before one of its effects (a store write, a topo write or a device
+		// Set) while the environment and the other controllers move on – a re-synchronisation or an apply that is
+		// overtaken by a restart of the device and a new mastership term – and then continues with what it had read
+		{Name: "S5h Set applied on T1; connection loss, re-connection and a device restart anywhere; one step split", Cfg: one, Init: connectAll("T1"),
+			Prefix:   []func(w *World) *Call{func(w *World) *Call { return w.GoSet(bgCtx(), a("leafA", "1").Set) }},
+			Requests: nil, Faults: []FaultSpec{faultDeviceRestart("T1"), faultConnDown("T1"), faultConnUp("T1")}, FaultBudget: 3, HoldBudget: 1, HoldDepth: 6},
+		{Name: "S5g Set applied on T1, second Set; the device restarts empty anywhere; one step split", Cfg: one, Init: connectAll("T1"),
+			Prefix:   []func(w *World) *Call{func(w *World) *Call { return w.GoSet(bgCtx(), a("leafA", "1").Set) }},
+			Requests: []SetReqOrCall{a("leafA2", "2")}, Faults: []FaultSpec{faultDeviceRestart("T1")}, FaultBudget: 1, HoldBudget: 1, HoldDepth: 6},
 	}
 }
 
